@@ -95,6 +95,10 @@ impl<'a> IntoIterator for &'a Directory {
     }
 }
 
+/// Upper bound for the number of entries that are pre-allocated based on the entry count
+/// found in the (untrusted) input.
+const MAX_PREALLOCATED_ENTRIES: usize = 16_384;
+
 impl Directory {
     #[duplicate_item(
         fn_name                  cfg_async_filter       input_traits                         decompress(compression, binding)              read_varint(type, reader)                  async;
@@ -113,7 +117,9 @@ impl Directory {
 
         let num_entries = read_varint([usize], [reader])?;
 
-        let mut entries = Vec::<Entry>::with_capacity(num_entries);
+        // the entry count comes from the input: do not trust it for the pre-allocation
+        // (a count of 2^40 in a 6 byte directory must not abort the process)
+        let mut entries = Vec::<Entry>::with_capacity(num_entries.min(MAX_PREALLOCATED_ENTRIES));
 
         // read tile_id
         let mut last_id = 0u64;
